@@ -62,6 +62,12 @@ class Q(float):
     def __reduce__(self): return (Q,(str(self.q),))
     def __format__(self, spec):
         return "Q:"+str(self.q)     # exact, survives float("...") via qfloat
+# make `Fraction == Q`, `Fraction < Q` exact as well (Fraction's comparison methods test for
+# numbers.Rational before they fall back to the float value)
+import numbers as _numbers
+Q.numerator = property(lambda self: self.q.numerator)
+Q.denominator = property(lambda self: self.q.denominator)
+_numbers.Rational.register(Q)
 _float=float
 class _QFMeta(type):
     def __instancecheck__(cls, inst): return isinstance(inst, _float)
